@@ -3,7 +3,7 @@ from props import lifecycle
 
 
 def check(run):
-    return lifecycle.check(run, "C07", ["panic", "fault", "long"])
+    return lifecycle.check(run, "C07", ["panic", "fault", "tls-stall", "long"])
 
 
 def replay(run, path):
